@@ -443,3 +443,63 @@ package kvgraph
 //@   loop 101 invariant noprefix: (forall k:Str :: kvhas(k) ==> !hasprefix(k, ekeyPrefix)) ==> e == nil
 //@   ensures absent: (forall k:Str :: kvhas(k) ==> !hasprefix(k, pre)) ==> result == nil
 //@   ensures readonly: same(kvdom(), old(kvdom())) && same(kvvals(), old(kvvals())) && kvwrites() == old(kvwrites())
+
+// ---- C03: the vertex listing is a scan of the stored vertex keys of the graph ---------
+// GetVertexList's producer: unless the context is cancelled it emits exactly as many
+// vertices as there are stored keys under the graph's vertex prefix, each carrying the
+// id of a stored vertex key, in strictly increasing key order (so no vertex twice); it
+// writes nothing and closes the channel.
+//@ func (*KVInterfaceGDB).GetVertexList$1
+//@   property C03
+//@   option prelude=keys,kv,idxcount,ctx
+//@   option load=kvindex,kvi,timestamp,gdbi,gripql
+//@   option globals=kvgraph
+//@   modifies alloc H.gdbi. H.gripql. H.structpb. MapD. MapV. MapN SH. KV.it Box. Ch
+//@   requires nonnil: kgdb != nil && kgdb.kvg != nil && kgdb.kvg.kv != nil
+//@   requires fresh: o != nil && wr(o) == 0 && !closed(o) && o != ctxdone(ctx)
+//@   requires live: chlen(ctxdone(ctx)) == 0 && !closed(ctxdone(ctx)) && rd(ctxdone(ctx)) == 0
+//@   let vp = VertexListPrefix(kgdb.graph)
+//@   requires wf: nozero(kgdb.graph) && (forall k:Str :: kvhas(k) && hasprefix(k, vp) ==>
+//@       nozero(slnth(bsplit(k, sep0), 2)) && k == vkeyOf(kgdb.graph, slnth(bsplit(k, sep0), 2)))
+//@   loop 101 invariant store: same(kvdom(), old(kvdom())) && same(kvvals(), old(kvvals())) && kvwrites() == old(kvwrites())
+//@   loop 101 invariant elems: forall j :: 0 <= j && j < wr(o) ==> o[j] > 0 && o[j] < alloc && kvhas(vkeyOf(kgdb.graph, o[j].ID))
+//@   loop 101 invariant order: itvalid() ==> (forall j :: 0 <= j && j < wr(o) ==> blt(vkeyOf(kgdb.graph, o[j].ID), itpos()))
+//@   loop 101 invariant distinct: forall i, j :: 0 <= i && i < j && j < wr(o) ==> o[i].ID != o[j].ID
+//@   loop 101 invariant open: !closed(o) && chlen(ctxdone(ctx)) == 0 && !closed(ctxdone(ctx)) && rd(ctxdone(ctx)) == 0
+//@   loop 101 invariant iter: itvalid() ==> kvhas(itpos()) && ble(vPrefix, itpos())
+//@   loop 101 invariant count: itvalid() ==> wr(o) == pbelow(kvdom(), vPrefix, itpos())
+//@   loop 101 invariant done: !itvalid() ==> wr(o) == pcount(kvdom(), vPrefix)
+//@   ensures closed: closed(o)
+//@   ensures all: wr(o) == pcount(kvdom(), VertexListPrefix(kgdb.graph))
+//@   ensures stored: forall j :: 0 <= j && j < wr(o) ==> o[j] != nil && kvhas(vkeyOf(kgdb.graph, o[j].ID))
+//@   ensures distinct: forall i, j :: 0 <= i && i < j && j < wr(o) ==> o[i].ID != o[j].ID
+//@   ensures readonly: same(kvdom(), old(kvdom())) && same(kvvals(), old(kvvals())) && kvwrites() == old(kvwrites())
+
+// GetEdgeList's producer: the same scan over the graph's edge keys. Every stored edge key
+// yields one edge (count); without loading, the edge's id, endpoints and label are the
+// components of a stored key, in strictly increasing key order. (With loading, id and
+// label are read from the stored value: not stated here.)
+//@ func (*KVInterfaceGDB).GetEdgeList$1
+//@   property C03
+//@   option prelude=keys,kv,idxcount,ctx
+//@   option load=kvindex,kvi,timestamp,gdbi,gripql
+//@   option globals=kvgraph
+//@   modifies alloc H.gdbi. H.gripql. H.structpb. MapD. MapV. MapN SH. KV.it Box. Ch
+//@   requires nonnil: kgdb != nil && kgdb.kvg != nil && kgdb.kvg.kv != nil
+//@   requires fresh: o != nil && wr(o) == 0 && !closed(o) && o != ctxdone(ctx)
+//@   requires live: chlen(ctxdone(ctx)) == 0 && !closed(ctxdone(ctx)) && rd(ctxdone(ctx)) == 0
+//@   let ep = EdgeListPrefix(kgdb.graph)
+//@   requires wf: nozero(kgdb.graph) && (forall k:Str :: kvhas(k) && hasprefix(k, ep) ==>
+//@       nozero(slnth(bsplit(k, sep0), 2)) && nozero(slnth(bsplit(k, sep0), 3)) && nozero(slnth(bsplit(k, sep0), 4)) && nozero(slnth(bsplit(k, sep0), 5)) &&
+//@       k == ekeyOf(kgdb.graph, slnth(bsplit(k, sep0), 2), slnth(bsplit(k, sep0), 3), slnth(bsplit(k, sep0), 4), slnth(bsplit(k, sep0), 5), 1))
+//@   loop 101 invariant store: same(kvdom(), old(kvdom())) && same(kvvals(), old(kvvals())) && kvwrites() == old(kvwrites())
+//@   loop 101 invariant elems: !loadProp ==> (forall j :: 0 <= j && j < wr(o) ==> o[j] > 0 && o[j] < alloc && kvhas(ekeyOf(kgdb.graph, o[j].ID, o[j].From, o[j].To, o[j].Label, 1)))
+//@   loop 101 invariant order: !loadProp && itvalid() ==> (forall j :: 0 <= j && j < wr(o) ==> blt(ekeyOf(kgdb.graph, o[j].ID, o[j].From, o[j].To, o[j].Label, 1), itpos()))
+//@   loop 101 invariant open: !closed(o) && chlen(ctxdone(ctx)) == 0 && !closed(ctxdone(ctx)) && rd(ctxdone(ctx)) == 0
+//@   loop 101 invariant iter: itvalid() ==> kvhas(itpos()) && ble(ePrefix, itpos())
+//@   loop 101 invariant count: itvalid() ==> wr(o) == pbelow(kvdom(), ePrefix, itpos())
+//@   loop 101 invariant done: !itvalid() ==> wr(o) == pcount(kvdom(), ePrefix)
+//@   ensures closed: closed(o)
+//@   ensures all: wr(o) == pcount(kvdom(), EdgeListPrefix(kgdb.graph))
+//@   ensures stored: !loadProp ==> (forall j :: 0 <= j && j < wr(o) ==> o[j] != nil && kvhas(ekeyOf(kgdb.graph, o[j].ID, o[j].From, o[j].To, o[j].Label, 1)))
+//@   ensures readonly: same(kvdom(), old(kvdom())) && same(kvvals(), old(kvvals())) && kvwrites() == old(kvwrites())
